@@ -50,7 +50,12 @@ def validate(ctx, out_dir, prefix, group="all", max_close_ms=1200,
         ev = evs[rel - 1]
         rejected += 1
         key = "life:reject:%s" % ev.get("ev")
-        if ev.get("ev") == "inventory":
+        if ev.get("ev") == "abortInventory":
+            if ev.get("leaked", 0) > 0:
+                key = "life:abort-handshake:leak:" + "+".join(sorted(set(ev.get("names", []))))
+            else:
+                key = "life:abort-handshake:constructor-does-not-return"
+        elif ev.get("ev") == "inventory":
             if ev.get("leaked", 0) > 0:
                 key = "life:leak:" + "+".join(sorted(set(ev.get("names", []))))
             elif ev.get("blocked", 0) or ev.get("stuck", 0):
@@ -63,7 +68,7 @@ def validate(ctx, out_dir, prefix, group="all", max_close_ms=1200,
         life = [e for e in evs[:rel + 1] if e.get("ev") in (
             "closeCall", "closeQuit", "closeDone", "closeRet", "fin", "sExit",
             "rExit", "blockedAtClose", "netAtClose", "postSend", "postRecv",
-            "peerCheck", "inventory", "pongTimeout") or
+            "peerCheck", "inventory", "abortInventory", "pongTimeout") or
             (e.get("ev") == "tx" and e.get("k") == "FIN") or
             (e.get("ev") in ("sendRet", "recvRet") and e.get("err"))]
         ctx.report(key, "life-cycle trace of the real connection is not a "
